@@ -107,6 +107,29 @@ def _het_int_log_cond_y(rp, st):
     a = st["a"]
     c, p = rp.heap[a["i"]], rp.heap[a["j"]]
     val = c.integrate_log_conditional_y(p, y=stack_q(a["y"]))
+    _flag_collinear(rp, c)
+
+    def chk(val, exp):
+        e = np.asarray([val_value(v) for v in exp["val"]], dtype=float)
+        cmp_lin("return", np.asarray(val, dtype=float).reshape(-1), e)
+    return None, ("custom", val, chk)
+
+
+class _NotExposed(Exception):
+    """The code no longer exposes this internal ingredient under the expected name / signature: no verdict."""
+
+
+def _ingredient(rp, fn, *args, **kw):
+    # k_func / _lower_bound_integrals / _get_omega_* are internals of the bound: a refactoring may rename or re-sign them
+    # without changing any property; then these steps give no verdict (counted), they never raise an alarm.
+    try:
+        return fn(*args, **kw)
+    except (AttributeError, TypeError) as e:
+        rp.count("bound_ingredient_not_exposed")
+        raise _NotExposed(str(e))
+
+
+def _flag_collinear(rp, c):
     # degenerate geometry: the projected mean map of a noise direction is collinear with its gate weights, so that
     # (a_i' L0 (y - M x - b), h_i(x)) is a singular Gaussian pair (recorded in the context for known-finding KF-4)
     try:
@@ -119,10 +142,80 @@ def _het_int_log_cond_y(rp, st):
     except Exception:
         pass
 
+
+def _flag_zero_unit(rp, c):
+    try:
+        if bool(np.any(np.all(np.asarray(c.W) == 0.0, axis=1))):
+            rp.extra_ctx["zero_unit"] = True      # a noise unit with w = 0 and w0 = 0 (known finding KF-5)
+    except Exception:
+        pass
+
+
+@binding("HetK")
+def _het_k(rp, st):
+    a = st["a"]
+    c, p = rp.heap[a["i"]], rp.heap[a["j"]]
+    _flag_zero_unit(rp, c)
+    om = jnp.asarray([a["omega"]["n"] / a["omega"]["d"]])
+    try:
+        val = _ingredient(rp, lambda: c.k_func(p_x=p, W_i=c.W[int(a["u"]) - 1], omega_dagger=om))
+    except _NotExposed:
+        return None, ("custom", None, lambda v, e: None)
+
     def chk(val, exp):
         e = np.asarray([val_value(v) for v in exp["val"]], dtype=float)
         cmp_lin("return", np.asarray(val, dtype=float).reshape(-1), e)
     return None, ("custom", val, chk)
+
+
+@binding("HetLBI")
+def _het_lbi(rp, st):
+    a = st["a"]
+    c, p = rp.heap[a["i"]], rp.heap[a["j"]]
+    _flag_collinear(rp, c)
+    u = int(a["u"]) - 1
+    om = jnp.asarray([a["omega"]["n"] / a["omega"]["d"]])
+    y = stack_q(a["y"])
+    try:
+        a_inv = jnp.einsum("abc,acd->abd", c.Lambda, c.A[:, :, :c.Dk])[0]          # Lambda0 A_k, as the bound uses it
+        val = _ingredient(rp, lambda: c._lower_bound_integrals(p, y, c.W[u], a_inv.T[u], om))
+    except _NotExposed:
+        return None, ("custom", None, lambda v, e: None)
+
+    def chk(val, exp):
+        e = np.asarray([val_value(v) for v in exp["val"]], dtype=float)
+        cmp_lin("return", np.asarray(val, dtype=float).reshape(-1), e)
+    return None, ("custom", val, chk)
+
+
+@binding("HetLBAssembly")
+def _het_lb_assembly(rp, st):
+    a = st["a"]
+    c, p = rp.heap[a["i"]], rp.heap[a["j"]]
+    _flag_zero_unit(rp, c)
+    _flag_collinear(rp, c)
+    y = stack_q(a["y"])
+    lb = c.integrate_log_conditional_y(p, y=y)
+    try:
+        a_inv = jnp.einsum("abc,acd->abd", c.Lambda, c.A[:, :, :c.Dk])[0]
+        ks, lbis = [], []
+        for u in range(int(c.Dk)):
+            od = _ingredient(rp, lambda: c._get_omega_dagger(p_x=p, W_i=c.W[u]))
+            os_ = _ingredient(rp, lambda: c._get_omega_star(p_x=p, y=y, W_i=c.W[u], a_i=a_inv.T[u]))
+            ks.append(_ingredient(rp, lambda: c.k_func(p_x=p, W_i=c.W[u], omega_dagger=od)))
+            lbis.append(_ingredient(rp, lambda: c._lower_bound_integrals(p, y, c.W[u], a_inv.T[u], os_)))
+        parts = (jnp.sum(jnp.stack([jnp.ravel(k)[0] for k in ks])), jnp.sum(jnp.stack([jnp.ravel(v)[0] for v in lbis])))
+    except _NotExposed:
+        return None, ("custom", None, lambda v, e: None)
+
+    def chk(val, exp):
+        lbv, (ksum, lsum) = val
+        quad0 = float(exp["quad0"])
+        lndet0 = float(exp["lndet0"])
+        dy = int(np.asarray(c.Dy))
+        e = -0.5 * (quad0 - float(lsum) + lndet0 + float(ksum) + dy * np.log(2.0 * np.pi))
+        cmp_lin("return", np.asarray(lbv, dtype=float).reshape(-1), np.asarray([e]))
+    return None, ("custom", (lb, parts), chk)
 
 
 def _val_rows(exp):
